@@ -20,19 +20,10 @@ sys.setrecursionlimit(10000)
 
 from sa.model import REPO     # noqa: E402
 
-FILES = {
-    "nasim/envs/network.py": ["C01", "C02", "C03", "C04", "C05", "C06", "C07", "C13"],
-    "nasim/envs/host_vector.py": ["C01", "C02", "C04", "C05", "C08", "C09", "C13", "C19"],
-    "nasim/envs/state.py": ["C02", "C03", "C04", "C06", "C08", "C09", "C12", "C13"],
-    "nasim/envs/observation.py": ["C08", "C09", "C10", "C13"],
-    "nasim/envs/environment.py": ["C04", "C05", "C06", "C08", "C10", "C11", "C12", "C13"],
-    "nasim/envs/action.py": ["C01", "C05", "C07", "C10", "C11"],
-    "nasim/scenarios/scenario.py": ["C06", "C09", "C10", "C11", "C17"],
-    "nasim/scenarios/host.py": ["C02"],
-    "nasim/scenarios/loader.py": ["C17", "C18", "C02", "C09"],
-    "nasim/scenarios/generator.py": ["C14", "C15", "C16", "C09"],
-    "nasim/scenarios/__init__.py": ["C14", "C19"],
-}
+from selfval.run import SCOPE as _SCOPE      # noqa: E402
+FILES = dict(_SCOPE)
+FILES["nasim/scenarios/host.py"] = ["C02", "C09", "C15", "C16", "C17"]
+FILES["nasim/scenarios/__init__.py"] = ["C14", "C19"]
 SKIP_FUNCS = {"__str__", "__repr__", "__hash__", "__eq__", "display", "get_description",
               "get_state_space_size", "render", "render_obs", "render_state", "render_action",
               "render_episode", "render_network_graph", "readable", "get_readable",
